@@ -1,8 +1,9 @@
-(* C17, repaired variant: compiled only when the implementation shows none of the PHASE / MEASURE / width
-   defects.  Then every kind the writer accepts survives, the width is restored, and the round trip holds
-   for EVERY circuit object whose gates the instruction lines can carry (one target, numeric parameter on
-   the rotation kinds, exactly one control on CNOT - anything else on CNOT is refused,
-   C17_projectq_refuses_multicontrol). *)
+(* C17, repaired variant: compiled only when the implementation shows none of the recorded ProjectQ defects
+   (PHASE, MEASURE, width, multi-control CNOT, multi-target MEASURE).  Then every kind the writer accepts
+   survives, the width is restored, everything a line cannot carry is refused by a guard, and
+   C17_projectq_written_roundtrips holds: for EVERY circuit object, whatever the writer accepts to write is
+   read back as an equal circuit - the only gate-level condition is on the parameter (a number on the rotation
+   kinds, none elsewhere); no condition on arity (MEASURE included), number of controls or width. *)
 From Coq Require Import String ZArith List Bool.
 From Tangelo Require Import Linq.GateModel Linq.CircuitModel Linq.Formats Linq.FormatsProofs Linq.LinqZ Linq.FormatsZ.
 From Gen Require Import GateTables FormatTables.
@@ -33,6 +34,27 @@ Proof.
   rewrite (proj2 C17_projectq_tables_ok). discriminate.
 Qed.
 Print Assumptions C17_projectq_roundtrip.
+
+(* the guards regenerated from the writer and gate.py's arity table leave nothing unexpressible *)
+Theorem C17_projectq_guards_ok : pq_guards_ok gtables pq_tbl = true.
+Proof. vm_compute. reflexivity. Qed.
+Print Assumptions C17_projectq_guards_ok.
+
+Theorem C17_projectq_written_roundtrips :
+  forall (Ang : Type) (eqmod : bool -> Ang -> Ang -> bool), (forall l a, eqmod l a a = true) ->
+  forall (c : fcirc Ang) ls,
+    circ_ok Ang gtables c ->
+    Forall (pq_param_ok Ang pq_tbl) (fgates c) ->
+    Forall (fun g : pgate Ang => pvar g = false) (fgates c) ->
+    pq_write Ang pq_tbl c = Ok ls ->
+    exists c', pq_read Ang gtables pq_tbl ls = Ok c' /\ circ_eq Ang eqmod gtables c c' = true.
+Proof.
+  intros Ang eqmod H c ls Hok.
+  apply (projectq_written_roundtrips Ang eqmod H gtables pq_tbl c ls (proj1 C17_projectq_tables_ok));
+    [vm_compute; reflexivity | exact C17_projectq_guards_ok | exact Hok |].
+  rewrite (proj2 C17_projectq_tables_ok). discriminate.
+Qed.
+Print Assumptions C17_projectq_written_roundtrips.
 
 (* non-vacuity: measurement, PHASE and idle qubits all present *)
 Definition ex_full : fcirc Z :=
